@@ -281,6 +281,9 @@ static const char *PATCHES[] = {
 	"[{\"op\":\"move\",\"from\":\"/a/b\",\"path\":\"/moved\"}]",
 	"[{\"op\":\"copy\",\"from\":\"/a\",\"path\":\"/copied\"},{\"op\":\"add\",\"path\":\"/copied/b/-\",\"value\":7}]",
 	"[{\"op\":\"test\",\"path\":\"/a/b/1\",\"value\":20},{\"op\":\"add\",\"path\":\"/q\",\"value\":null}]",
+	"[{\"op\":\"move\",\"from\":\"/x~1y\",\"path\":\"/a/b/0\"}]",
+	"[{\"op\":\"copy\",\"from\":\"/x~1y\",\"path\":\"/t~0u\"},{\"op\":\"move\",\"from\":\"/t~0u\",\"path\":\"/v~1w\"},{\"op\":\"remove\",\"path\":\"/v~1w\"}]",
+	"[{\"op\":\"move\",\"from\":\"/a/b/2/c\",\"path\":\"/a/b/2/e~1f\"},{\"op\":\"replace\",\"path\":\"/a/b/2/e~1f\",\"value\":[1]},{\"op\":\"test\",\"path\":\"/a/b/2/e~1f\",\"value\":[1]}]",
 	"[{\"op\":\"add\",\"path\":\"/k1\",\"value\":1},{\"op\":\"add\",\"path\":\"/k2\",\"value\":2},{\"op\":\"add\",\"path\":\"/k3\",\"value\":3},{\"op\":\"add\",\"path\":\"/k4\",\"value\":4},{\"op\":\"add\",\"path\":\"/k5\",\"value\":5},{\"op\":\"add\",\"path\":\"/k6\",\"value\":6},{\"op\":\"add\",\"path\":\"/k7\",\"value\":7},{\"op\":\"add\",\"path\":\"/k8\",\"value\":8},{\"op\":\"add\",\"path\":\"/k9\",\"value\":9}]",
 };
 #define NPATCHES ((int)(sizeof PATCHES / sizeof PATCHES[0]))
@@ -314,15 +317,24 @@ static void wl_fd(struct ctx *c)
 		free(got.b); check_keeps(c); put_keeps(c, 1);
 	} else {
 		int fd = mem_fd(); struct json_object *o; struct obuf doc = {0}; int i;
+		if (c->param == 3) {
+			/* 8-byte records, so that every read-sized block (4096) starts and ends on element boundaries: a block that is lost
+			 * on the way (instead of failing the call) still leaves a well-formed, but different, document */
+			ob_puts(&doc, "[       ");
+			for (i = 0; i < 4094; i++) ob_printf(&doc, "%07d,", 1000000 + i);
+			ob_puts(&doc, "      0]");
+		} else {
 		ob_puts(&doc, "[");
 		for (i = 0; i < (c->param == 0 ? 700 : 5); i++) ob_printf(&doc, "%s\"item %d\"", i ? "," : "", i);
 		ob_puts(&doc, "]");
+		}
 		if (write(fd, doc.b, doc.n) != (ssize_t)doc.n) bad(c, "harness-write");
 		lseek(fd, 0, SEEK_SET);
 		_json_c_set_last_err("%s", "");
 		ARM(c); o = json_object_from_fd_ex(fd, 8); DISARM(c);
 		close(fd);
 		if (!o) { c->failed = 1; if (!json_util_get_last_err()) bad(c, "no-error-message"); }
+		else if (c->param == 3) { size_t k, n = json_object_array_length(o); long long sum = 0; for (k = 0; k < n; k++) sum += json_object_get_int64(json_object_array_get_idx(o, k)); ob_printf(&c->res, "len=%zu sum=%lld", n, sum); }
 		else res_obj(c, o);
 		json_object_put(o); free(doc.b);
 	}
@@ -482,7 +494,7 @@ static void build_table(void)
 	for (i = 0; i < 4; i++) addw("printbuf", wl_printbuf, i, "printbuf");
 	for (i = 0; i < 6; i++) addw("pointer", wl_pointer, i, "pointer");
 	for (i = 0; i < NPATCHES * 2; i++) addw("patch", wl_patch, i, "patch");
-	for (i = 0; i < 3; i++) addw("fd", wl_fd, i, i == 1 ? "serialize-fd" : "fd");
+	for (i = 0; i < 4; i++) addw("fd", wl_fd, i, i == 1 ? "serialize-fd" : "fd");
 	for (i = 0; i < 8; i++) addw("double_format", wl_double_format, i, "config");
 	for (i = 0; i < 3; i++) addw("big", wl_big_inputs, i, i == 2 ? "patch" : i == 1 ? "fd" : "parse");
 	addw("lh_table", wl_lh_table, 0, "table"); addw("lh_table", wl_lh_table, 16, "table");
